@@ -12,8 +12,9 @@ import (
 )
 
 type c07Step struct {
-	Op string `json:"op"` // send | down | up | wait_offline | wait_online | sleep
+	Op string `json:"op"` // send | down | up | wait_offline | wait_online | sleep | mode
 	N  int    `json:"n,omitempty"`
+	M  string `json:"m,omitempty"` // mode: how the endpoint treats connections accepted from the next "up" on (read | blackhole)
 }
 
 type c07Case struct {
@@ -26,6 +27,7 @@ type c07Case struct {
 	PaceUs       int       `json:"pace_us"` // pause after every line
 	FileBytes    int64     `json:"file_bytes"`
 	SpoolSleepUs int       `json:"spool_sleep_us"` // 0 = 10 (the documented default is 500)
+	Size         int       `json:"size"`           // bytes per line (0 = 40)
 }
 
 func runC07(raw json.RawMessage) (interface{}, error) {
@@ -70,6 +72,10 @@ func runC07(raw json.RawMessage) (interface{}, error) {
 	if c.StartUp && !online(true) {
 		return nil, fmt.Errorf("destination did not come online")
 	}
+	size := c.Size
+	if size == 0 {
+		size = 40
+	}
 	sent := 0
 	var maxIn time.Duration
 	isUp := c.StartUp
@@ -78,7 +84,7 @@ func runC07(raw json.RawMessage) (interface{}, error) {
 		case "send":
 			for i := 0; i < st.N; i++ {
 				t0 := time.Now()
-				d.In <- mkLine(sent, 40)
+				d.In <- mkLine(sent, size)
 				if dt := time.Since(t0); dt > maxIn {
 					maxIn = dt
 				}
@@ -109,6 +115,10 @@ func runC07(raw json.RawMessage) (interface{}, error) {
 			}
 		case "sleep":
 			time.Sleep(time.Duration(st.N) * time.Millisecond)
+		case "mode":
+			ep.mu.Lock()
+			ep.mode = st.M
+			ep.mu.Unlock()
 		}
 	}
 	if !isUp {
@@ -147,7 +157,7 @@ func runC07(raw json.RawMessage) (interface{}, error) {
 	missing, foreign, dups := 0, 0, 0
 	want := map[string]bool{}
 	for i := 0; i < sent; i++ {
-		l := string(mkLine(i, 40))
+		l := string(mkLine(i, size))
 		want[l] = true
 		if ep.seen[l] == 0 {
 			missing++
